@@ -396,6 +396,13 @@ impl<'a> ExpressionLoweringManager<'a> {
           self.create_hir_function_name(source_target_type, source_callee.method_name.name);
         let fn_type_without_cx =
           self.get_function_type_without_context(&source_callee.common.type_);
+        // Arguments are evaluated left-to-right before the callee (here: the receiver).
+        let lowered_args = expression
+          .arguments
+          .expressions
+          .iter()
+          .map(|a| self.lowered_and_add_statements(a, &mut lowered_stmts))
+          .collect_vec();
         let hir_target = self.lowered_and_add_statements(&source_callee.object, &mut lowered_stmts);
         let hir_target_type = hir_target.type_();
         let inferred_targs = self
@@ -420,22 +427,20 @@ impl<'a> ExpressionLoweringManager<'a> {
               },
               type_arguments,
             }),
-            arguments: vec![hir_target]
-              .into_iter()
-              .chain(
-                expression
-                  .arguments
-                  .expressions
-                  .iter()
-                  .map(|a| self.lowered_and_add_statements(a, &mut lowered_stmts)),
-              )
-              .collect_vec(),
+            arguments: vec![hir_target].into_iter().chain(lowered_args).collect_vec(),
             return_type: fn_type_without_cx.return_type.as_ref().dupe(),
             return_collector: if is_void_return { None } else { Some(return_collector_name) },
           },
         )
       }
       source_callee => {
+        // Arguments are evaluated left-to-right, then the callee is evaluated and invoked.
+        let lowered_args = expression
+          .arguments
+          .expressions
+          .iter()
+          .map(|a| self.lowered_and_add_statements(a, &mut lowered_stmts))
+          .collect_vec();
         let lowered_fn_expr = self
           .lowered_and_add_statements(source_callee, &mut lowered_stmts)
           .as_variable()
@@ -446,12 +451,6 @@ impl<'a> ExpressionLoweringManager<'a> {
         let return_type = self
           .type_lowering_manager
           .lower_source_type(self.heap, &source_callee_fn_type.return_type);
-        let lowered_args = expression
-          .arguments
-          .expressions
-          .iter()
-          .map(|a| self.lowered_and_add_statements(a, &mut lowered_stmts))
-          .collect_vec();
         (
           return_type.dupe(),
           hir::Statement::Call {
